@@ -2,7 +2,8 @@
 
 Every entry is (label, factory): factories give a *fresh* object per use so one-shot iterators and
 mutable containers are not shared between modes.  Deliberately excluded: objects whose own dunder
-methods raise or lie (that is user code), classes/typing objects used as data, nesting beyond 60.
+methods raise or lie (that is user code), classes/typing objects used as data, nesting beyond 60, ints beyond CPython's
+int-to-str limit (10**5000: repr() itself raises ValueError, in adaptix's trail notes as in every traceback or log line).
 """
 from __future__ import annotations
 
@@ -94,6 +95,8 @@ POOL = [
     ("EInt.A", lambda: EInt.A), ("EStr.X", lambda: EStr.X), ("IE.ONE", lambda: IE.ONE), ("FRWX.R", lambda: FRWX.R),
     ("object()", object), ("deep50", lambda: _deep(50)), ("[[1]]", lambda: [[1]]), ("[{}]", lambda: [{}]), ("[[1],[1]]", lambda: [[1], [1]]),
     ("NTItems", lambda: NTItems(5, 3, 1, None)), ("ObjItems", ObjItems), ("[NTItems]", lambda: [NTItems(5, 3, 1, None)]),
+    ("'a{9..9}'", lambda: "a{99999999999999999999}"), ("(0,(1,),10**30)", lambda: (0, (1,), 10**30)),
+    ("'sNaN'", lambda: "sNaN"),
     ("Ellipsis", lambda: ...), ("NotImplemented", lambda: NotImplemented),
 ]
 POOL_BY_LABEL = dict(POOL)
